@@ -253,6 +253,28 @@ func pfPrelude() []pfCase {
 			st("app.x.io", "/health", none, func(s *pfStep) { s.Upstream = upEmptyFirst }),
 		}})
 	}
+	// overlapping rewrite patterns: a Host that matches several goes to the first one in configuration order — whatever
+	// was asked before (policy, provider and backend are that route's)
+	ovl := pfBaseCfg()
+	ovl.Upstreams = []pfUpstream{
+		{Service: "adm", From: `^admin--[a-z]+\.apps\.x\.io$`, Rewrite: true, Addrs: []string{"root@x.io"}, Slug: "okta"},
+		{Service: "wild", From: `^[a-z-]+\.apps\.x\.io$`, Rewrite: true, Domains: []string{"x.io"}},
+		{Service: "app", From: "app.x.io", Domains: []string{"x.io"}},
+	}
+	root := func(host string) pfCookie { return S(host, func(s *pfSess) { s.Email = "root@x.io"; s.Slug = "okta" }) }
+	cases = append(cases, pfCase{Cfg: ovl, Steps: []pfStep{
+		st("admin--db.apps.x.io", "/", none, nil),
+		st("blog.apps.x.io", "/", none, nil),
+		st("admin--db.apps.x.io", "/", none, nil), // after a request only the later pattern matches
+		st("blog.apps.x.io", "/", S("blog.apps.x.io", nil), nil),
+		st("admin--db.apps.x.io", "/", S("admin--db.apps.x.io", nil), nil), // ann@x.io: not on the admin list
+		st("blog.apps.x.io", "/", S("blog.apps.x.io", nil), nil),
+		st("admin--db.apps.x.io", "/", root("admin--db.apps.x.io"), nil),
+		st("blog.apps.x.io", "/", none, nil),
+		st("admin--db.apps.x.io", "/", S("admin--db.apps.x.io", func(s *pfSess) { s.Slug = "okta" }), nil),
+		st("app.x.io", "/", S("app.x.io", nil), nil),
+		st("admin--db.apps.x.io", "/", root("admin--db.apps.x.io"), nil),
+	}})
 	// a group rule whose only name is blank (e.g. an empty template variable) is still a rule: it admits nobody
 	for _, gs := range [][]string{{""}, {" ", "\t"}, {"*", ""}, {"eng", ""}} {
 		bl := pfBaseCfg()
@@ -381,6 +403,13 @@ func init() {
 			}
 			if m == 0 {
 				u.Domains = []string{"x.io"}
+			}
+			if rng.Intn(5) == 0 {
+				// a second rewrite pattern ahead of the general one, overlapping it for some hosts
+				extra := pfUpstream{Service: "foo", From: `^foo\.apps\.x\.io$`, Rewrite: true, Addrs: []string{"bob@y.io"}}
+				ups := append([]pfUpstream{}, cfg.Upstreams[:2]...)
+				ups = append(ups, extra)
+				cfg.Upstreams = append(ups, cfg.Upstreams[2:]...)
 			}
 			c := pfCase{Cfg: cfg}
 			mode := rng.Intn(5)
